@@ -84,7 +84,9 @@ CHECKS = {
             '4/C08', TRUSTED),
     'C09': ('exploration',
             'two real sanitized endpoints; credential-defect matrix built byte-by-byte with an independent X.509/SM2 '
-            'builder, keys the presenter does not own poked into the connection object; must-fail verdict on the verifier '
+            'builder, keys the presenter does not own poked into the connection object; hostile peers written from the '
+            'RFCs in pure Python (TLS 1.3 client and server, TLCP and TLS 1.2 client) that omit, reorder or forge their '
+            'proof of possession while keeping their own transcript consistent; must-fail verdict on the verifier '
             'with a positive control per cell',
             'For each protocol and verifier role: untrusted / same-name root, expired and not-yet-valid leaf or intermediate, '
             'issuer without basicConstraints / cA=FALSE / no keyCertSign (incl. above the first CA), end-entity as issuer, '
@@ -188,7 +190,8 @@ CHECKS = {
             'SM2 key generation/import/sign/decrypt/ECDH, PKCS#8 encrypt/open (right, wrong password, truncated), import of '
             'structurally valid but inconsistent key containers through all four paths, CMS sign/envelop/open and X.509 '
             'signing with known signer, recipient and content keys (good, wrong key, bit flips), SM9 '
-            'keygen/extract/sign/encrypt/decrypt, record unprotection (good and bad records); secrets searched: private '
+            'keygen/extract/sign/encrypt/decrypt, record unprotection (good and bad records), live receive-failure paths after '
+            'data was exchanged (truncated / announced-more-than-sent / flipped / replayed records ...); secrets searched: private '
             'scalars (both byte orders), nonces, master secret, key block and slices, TLS 1.3 traffic keys recovered by '
             'inverting the SM4 key schedule of the connection object, IVs, passwords, plaintexts.',
             '4/C19', TRUSTED),
